@@ -30,6 +30,7 @@ type Edge struct {
 }
 
 type Graph struct {
+	Inlined []*InlinedCall
 	Blocks []*Block
 	Entry  *Block
 	Exit   *Block // normal exit: target of every return and of falling off the end
@@ -51,12 +52,54 @@ type builder struct {
 	noReturn NoReturnFunc
 	lblocks  map[string]*lblock
 	targets  *targets
+	inline   InlineFunc
+	ret      *retCtx // inside the spliced body of a helper: what its return statements become
+	depth    int
+	stack    []*ast.FuncDecl
+	parent   *InlinedCall
+}
+
+// InlineFunc decides whether the body of the function called by call is spliced into the graph in place of the call
+// (see BuildInlining). tail: the call is the operand of a return statement.
+type InlineFunc func(call *ast.CallExpr, tail bool) *InlineDecision
+
+// InlineDecision: the helper to splice and the parameters that must become locals of their own (a struct or array
+// passed by value that the helper modifies: the modification is made to the copy).
+type InlineDecision struct {
+	Decl *ast.FuncDecl
+	Bind map[*ast.Ident]bool
+}
+
+// InlinedCall records one spliced call: the helper's parameters that print as the caller's argument (Subst) and the
+// ones that became locals assigned at the call (Bound).
+type InlinedCall struct {
+	Call   *ast.CallExpr
+	Decl   *ast.FuncDecl
+	Subst  map[*ast.Ident]ast.Expr // parameter (its declaring identifier) -> argument expression
+	Bound  []*ast.Ident
+	Lhs    []ast.Expr // variables assigned from the helper's results
+	Parent *InlinedCall
+}
+
+type retCtx struct {
+	after *Block
+	lhs   []ast.Expr
+	tok   token.Token
 }
 
 // Build constructs the graph of one function body. FuncLits are opaque expressions.
 func Build(body *ast.BlockStmt, noReturn NoReturnFunc) *Graph {
+	return BuildInlining(body, noReturn, nil)
+}
+
+// BuildInlining is Build with helper splicing: a statement `h(a)`, `x, err := h(a)`, `x = h(a)` or `return h(a)` whose
+// callee inline accepts is replaced by the callee's body; its return statements become assignments to the left-hand
+// side (or returns of the caller, for the last form) followed by a jump to the statement's continuation. Parameters
+// whose argument is call-free and that the helper never assigns are not materialised (Canon prints them as the
+// argument); the others become locals assigned at the call.
+func BuildInlining(body *ast.BlockStmt, noReturn NoReturnFunc, inline InlineFunc) *Graph {
 	g := &Graph{}
-	b := &builder{g: g, noReturn: noReturn, lblocks: map[string]*lblock{}}
+	b := &builder{g: g, noReturn: noReturn, lblocks: map[string]*lblock{}, inline: inline}
 	g.Entry = b.newBlock("entry")
 	g.Exit = b.newBlock("exit")
 	g.Panic = b.newBlock("panic")
@@ -130,6 +173,9 @@ func (b *builder) callsNoReturn(n ast.Node) bool {
 func (b *builder) stmt(_s ast.Stmt) {
 	var label *lblock
 start:
+	if b.inline != nil && b.tryInline(_s) {
+		return
+	}
 	switch s := _s.(type) {
 	case *ast.BadStmt, *ast.SendStmt, *ast.IncDecStmt, *ast.GoStmt, *ast.EmptyStmt, *ast.AssignStmt:
 		b.add(s)
@@ -157,6 +203,18 @@ start:
 		_s = s.Stmt
 		goto start
 	case *ast.ReturnStmt:
+		if b.ret != nil {
+			// a return of a spliced helper: hand the results to the call statement's left-hand side and go on after it
+			if len(b.ret.lhs) > 0 && len(s.Results) > 0 {
+				b.add(&ast.AssignStmt{Lhs: b.ret.lhs, Tok: b.ret.tok, TokPos: s.Return, Rhs: s.Results})
+			} else {
+				for _, r := range s.Results {
+					b.add(r)
+				}
+			}
+			b.jump(b.ret.after)
+			return
+		}
 		b.add(s)
 		b.jump(b.g.Exit)
 	case *ast.BranchStmt:
@@ -552,3 +610,175 @@ func (g *Graph) Dominators(b *Block) []*Block {
 
 // Idom returns the immediate dominator (the entry block is its own).
 func (g *Graph) Idom(b *Block) *Block { return b.idom }
+
+// tryInline splices the helper called by statement s, if the statement has one of the supported forms and the
+// inline hook accepts the callee.
+func (b *builder) tryInline(s ast.Stmt) bool {
+	var call *ast.CallExpr
+	var lhs []ast.Expr
+	tok := token.ASSIGN
+	tail := false
+	switch x := s.(type) {
+	case *ast.ExprStmt:
+		call, _ = ast.Unparen(x.X).(*ast.CallExpr)
+	case *ast.AssignStmt:
+		if len(x.Rhs) == 1 && (x.Tok == token.ASSIGN || x.Tok == token.DEFINE) {
+			call, _ = ast.Unparen(x.Rhs[0]).(*ast.CallExpr)
+			lhs, tok = x.Lhs, x.Tok
+		}
+	case *ast.ReturnStmt:
+		if len(x.Results) == 1 {
+			call, _ = ast.Unparen(x.Results[0]).(*ast.CallExpr)
+			tail = true
+		}
+	}
+	if call == nil || b.depth >= 3 || call.Ellipsis.IsValid() {
+		return false
+	}
+	dec := b.inline(call, tail)
+	if dec == nil || dec.Decl == nil || dec.Decl.Body == nil {
+		return false
+	}
+	decl := dec.Decl
+	for _, d := range b.stack {
+		if d == decl {
+			return false
+		}
+	}
+	// parameters in order (receiver first)
+	var params []*ast.Ident
+	var args []ast.Expr
+	if decl.Recv != nil && len(decl.Recv.List) == 1 {
+		sel, ok := ast.Unparen(call.Fun).(*ast.SelectorExpr)
+		if !ok {
+			return false
+		}
+		if len(decl.Recv.List[0].Names) == 1 {
+			params = append(params, decl.Recv.List[0].Names[0])
+		} else {
+			params = append(params, nil)
+		}
+		args = append(args, sel.X)
+	}
+	for _, f := range decl.Type.Params.List {
+		if _, variadic := f.Type.(*ast.Ellipsis); variadic {
+			return false
+		}
+		if len(f.Names) == 0 {
+			params = append(params, nil)
+		}
+		for _, n := range f.Names {
+			params = append(params, n)
+		}
+	}
+	args = append(args, call.Args...)
+	if len(params) != len(args) {
+		return false
+	}
+	if decl.Type.Results != nil {
+		for _, f := range decl.Type.Results.List {
+			if len(f.Names) > 0 {
+				return false // named results
+			}
+		}
+	}
+	ok := true
+	assigned := map[string]bool{}
+	ast.Inspect(decl.Body, func(n ast.Node) bool {
+		switch x := n.(type) {
+		case *ast.LabeledStmt:
+			ok = false
+		case *ast.BranchStmt:
+			if x.Tok == token.GOTO || x.Label != nil {
+				ok = false
+			}
+		case *ast.DeferStmt:
+			if !tail || b.ret != nil {
+				ok = false
+			}
+		case *ast.AssignStmt:
+			for _, l := range x.Lhs {
+				if id, isId := ast.Unparen(l).(*ast.Ident); isId {
+					assigned[id.Name] = true
+				}
+			}
+		case *ast.IncDecStmt:
+			if id, isId := ast.Unparen(x.X).(*ast.Ident); isId {
+				assigned[id.Name] = true
+			}
+		case *ast.UnaryExpr:
+			if x.Op == token.AND {
+				if id, isId := ast.Unparen(x.X).(*ast.Ident); isId {
+					assigned[id.Name] = true
+				}
+			}
+		case *ast.RangeStmt:
+			for _, l := range []ast.Expr{x.Key, x.Value} {
+				if id, isId := l.(*ast.Ident); isId {
+					assigned[id.Name] = true
+				}
+			}
+		}
+		return ok
+	})
+	if !ok {
+		return false
+	}
+	ic := &InlinedCall{Call: call, Decl: decl, Subst: map[*ast.Ident]ast.Expr{}, Lhs: lhs, Parent: b.parent}
+	callFree := func(e ast.Expr) bool {
+		pure := true
+		ast.Inspect(e, func(n ast.Node) bool {
+			switch x := n.(type) {
+			case *ast.CallExpr, *ast.FuncLit, *ast.CompositeLit:
+				pure = false
+			case *ast.UnaryExpr:
+				if x.Op == token.ARROW || x.Op == token.AND {
+					pure = false
+				}
+			}
+			return pure
+		})
+		return pure
+	}
+	for i, p := range params {
+		switch {
+		case p == nil || p.Name == "_":
+			if !callFree(args[i]) {
+				b.add(args[i])
+			}
+		case callFree(args[i]) && !assigned[p.Name] && !dec.Bind[p]:
+			ic.Subst[p] = args[i]
+		default:
+			b.add(&ast.AssignStmt{Lhs: []ast.Expr{p}, Tok: token.DEFINE, TokPos: call.Lparen, Rhs: []ast.Expr{args[i]}})
+			ic.Bound = append(ic.Bound, p)
+		}
+	}
+	b.g.Inlined = append(b.g.Inlined, ic)
+	savedT, savedR, savedP := b.targets, b.ret, b.parent
+	b.targets, b.parent = nil, ic
+	b.depth++
+	b.stack = append(b.stack, decl)
+	var after *Block
+	if !tail {
+		after = b.newBlock("inline.after")
+		b.ret = &retCtx{after: after, lhs: lhs, tok: tok}
+	}
+	b.stmtList(decl.Body.List)
+	if b.cur != nil {
+		if tail {
+			if b.ret != nil {
+				b.jump(b.ret.after)
+			} else {
+				b.add(&ast.ReturnStmt{Return: decl.Body.Rbrace})
+				b.jump(b.g.Exit)
+			}
+		} else {
+			b.jump(after)
+		}
+	}
+	b.stack = b.stack[:len(b.stack)-1]
+	b.depth--
+	b.targets, b.ret, b.parent = savedT, savedR, savedP
+	b.cur = after
+	return true
+}
